@@ -7,8 +7,6 @@ open Dsp.Proto Dsp.Fft
 /-- the literals as written in the source (regenerated) -/
 def lits : Lits Float := ⟨Gen.fft8_c0, Gen.rfft8_c0, Gen.dft3_c0⟩
 
-def reOf (a : Array Float) : Nat → Float := fun i => a.getD i 0.0
-
 /-- splitmix-style generator shared with `harness/c01.cpp` (`mix`, `gen_re`, `gen_im`) -/
 def mix (m s : UInt64) : UInt64 :=
   let z := (m + 1) * 0x9e3779b97f4a7c15 + s * 0xbf58476d1ce4e5b9
@@ -47,28 +45,28 @@ def epsOf (v : Float) : Float :=
 def h01 : List String → Option String
   | "fft" :: rest => do
     let (x, _) ← takeCxs rest
-    some (fmtCxArr (toArray x.size (fftC lits x.size (ofArray x))))
+    some (fmtCxArr (fftC lits x.size x))
   | "rfft" :: rest => do
     let (x, _) ← takeFloats rest
-    some (fmtCxArr (toArray x.size (fftR lits x.size (reOf x))))
+    some (fmtCxArr (fftR lits x.size x))
   | "fftn" :: np :: rest => do
     let np ← np.toNat?
     let (x, _) ← takeCxs rest
-    some (fmtCxArr (toArray np (fftCN lits x.size np (ofArray x))))
+    some (fmtCxArr (fftCN lits np x))
   | "rfftn" :: np :: rest => do
     let np ← np.toNat?
     let (x, _) ← takeFloats rest
-    some (fmtCxArr (toArray np (fftRN lits x.size np (reOf x))))
+    some (fmtCxArr (fftRN lits np x))
   | "fftg" :: n :: s :: _ => do
     let n ← n.toNat?
     let s ← s.toNat?
     let x : Array (Cx Float) := Array.ofFn (n := n) (fun i => ⟨genRe i.val.toUInt64 s.toUInt64, genIm i.val.toUInt64 s.toUInt64⟩)
-    some (digest (toArray n (fftC lits n (ofArray x))))
+    some (digest (fftC lits n x))
   | "rfftg" :: n :: s :: _ => do
     let n ← n.toNat?
     let s ← s.toNat?
     let x : Array Float := Array.ofFn (n := n) (fun i => genRe i.val.toUInt64 s.toUInt64)
-    some (digest (toArray n (fftR lits n (reOf x))))
+    some (digest (fftR lits n x))
   | "czt" :: m :: wr :: wi :: ar :: ai :: rest => do
     let m ← m.toNat?
     let w : Cx Float := ⟨← parseF wr, ← parseF wi⟩
@@ -76,7 +74,7 @@ def h01 : List String → Option String
     let (x, _) ← takeCxs rest
     let d : Cx Float := ⟨a.re - 1.0, a.im⟩
     let skipA := !(Float.sqrt (d.re * d.re + d.im * d.im) > epsOf a.re)
-    some (fmtCxArr (toArray m (czt (fftPow2 lits) x.size m w a skipA (ofArray x))))
+    some (fmtCxArr (czt (fftPow2 lits) x.size m w a skipA x))
   | _ => none
 
 end Dsp.Driver
